@@ -392,6 +392,8 @@ pub fn random_op() -> BoxedStrategy<BOp> {
     1 => gen::short_text().prop_map(|t| BOp::Set(ClaimSpec::Aud(t.render()))),
     1 => gen::short_text().prop_map(|t| BOp::Set(ClaimSpec::Jti(t.render()))),
     3 => ("[a-d]", gen::json_leaf()).prop_map(|(k, v)| BOp::Set(ClaimSpec::Custom(k, v))),
+    // documents with hundreds of containers (tables, key sets, records with empty members)
+    1 => ("[a-d]", gen::json_doc_value()).prop_map(|(k, v)| BOp::Set(ClaimSpec::Custom(k, v))),
     // a payload beyond 64 KiB
     1 => (0u32..3).prop_map(|i| BOp::Set(ClaimSpec::Custom("blob".into(), Value::String("b".repeat([65_536usize, 70_000, 200_000][i as usize]))))),
     3 => Just(BOp::Ack),
